@@ -72,6 +72,10 @@ impl PrintStyles {
       ret.push('\n');
       write!(ret, "{}", self.matched.paint(line))?;
     }
+    // `lines` drops the line break a match ends with, the text that follows is a new line
+    if matched.ends_with('\n') {
+      ret.push('\n');
+    }
     Ok(())
   }
 
